@@ -240,6 +240,9 @@ func runC13(seed int64, tier string, sc *Script) map[string]any {
 			}
 			r.PlainHTTP = true
 			r.ManifestMediaTypes = mmt
+			if !custom && ci%2 == 1 {
+				r.ManifestMediaTypes = []string{} // an empty list means the defaults, like nil
+			}
 			r.SkipReferrersGC = rng.Intn(2) == 0
 			c.repos[name] = r
 		}
